@@ -131,6 +131,9 @@ func inboundFlow(session *sessions.Session) string {
 }
 
 func (processor *packetProcessor) Process(ctx context.Context, session *sessions.Session, c io.Writer, pkt packet.Packet) error {
+	// the session's own context: what is owed to the session once a packet has been answered (the retained messages
+	// after a SUBACK) must not be cancelled because writing the answer used up the per-packet budget below
+	sessionCtx := ctx
 	ctx, cancel := context.WithTimeout(ctx, 800*time.Millisecond)
 	defer cancel()
 	switch p := pkt.(type) {
@@ -214,7 +217,7 @@ func (processor *packetProcessor) Process(ctx context.Context, session *sessions
 			}
 			if len(messages) > 0 {
 				for _, message := range messages {
-					processor.writer.Send(ctx, []string{session.ID()}, []int32{p.Qos[idx]}, message.Publish)
+					processor.writer.Send(sessionCtx, []string{session.ID()}, []int32{p.Qos[idx]}, message.Publish)
 				}
 				L(ctx).Debug("sent retained messages", zap.Int("message_count", len(messages)))
 			}
